@@ -101,6 +101,22 @@ func evalText(src string, module bool) (string, string, Outcome) {
 	return core, core + "| " + posLine(o), o
 }
 
+// errText: the error as a value, rendered position-free (the thrown object, or the message of a Go error)
+func errText(o Outcome) string {
+	if o.Err == nil {
+		return ""
+	}
+	if ev, ok := o.Err.(interface{ ErrorValue() types.MalType }); ok {
+		switch v := ev.ErrorValue().(type) {
+		case error:
+			return "go-error: " + v.Error()
+		default:
+			return "thrown: " + Show(v)
+		}
+	}
+	return "go-error: " + o.Err.Error()
+}
+
 func runC19(tier string, seed uint64, rep *Report) {
 	rep.Rule = "programs of the C01 generator (special forms, closures, recursion, builtin calls, errors) and macro programs, each delivered by seven routes in fresh " +
 		"environments: the position-less AST built from Go (L-notation), its printed form re-read without module, re-read with a module name, re-rendered with random " +
@@ -137,6 +153,14 @@ func runC19(tier string, seed uint64, rep *Report) {
 				rep.Violate(idx, fmt.Sprintf("route %q gives %q, the AST route gives %q", name, got, ref), replay)
 			}
 		}
+		// the TEXT of the error (what catch binds, what str prints) must not depend on the route either: no
+		// module name, file name, row or column may leak into it
+		refText := errText(o1)
+		checkText := func(name string, o Outcome, replay string) {
+			if o1.Err != nil && o.Err != nil && errText(o) != refText {
+				rep.Violate(idx, fmt.Sprintf("route %q: the error value reads %q, by the AST route %q: the delivery leaks into the error", name, errText(o), refText), replay)
+			}
+		}
 		_ = w1
 		// routes 2-4: text
 		text := lisp.PRINT(whole)
@@ -155,6 +179,7 @@ func runC19(tier string, seed uint64, rep *Report) {
 				rep.Violate(ci, fmt.Sprintf("panic: %v", o.Panic), fmt.Sprintf("%q", rt.src))
 			}
 			check(rt.name, core, fmt.Sprintf("%q", rt.src))
+			checkText(rt.name, o, fmt.Sprintf("%q", rt.src))
 		}
 		// route 5: form by form through REPL (the value of the last form, printed)
 		{
